@@ -624,6 +624,8 @@ Proof.
   intros [HS [HO FH]]. destruct o as [x| |k oc|]; cbn [pre_events snd].
   - (* Offer *)
     rewrite app_nil_r. split; [eapply St_Icr; eauto|]. cbn [run_op].
+    destruct (too_large c x).
+    { cbn [wp fst snd]. unfold post_events. rewrite app_nil_r. split; [exact HS|split; auto]. }
     destruct (would_wait c v x).
     { cbn [wp fst snd]. unfold post_events. rewrite app_nil_r. split; [exact HS|split; auto]. }
     apply wp_bind. eapply wp_mono; [intros s Hs; exact Hs| |apply (spec_put c E FH v outs st x HS)].
